@@ -471,14 +471,11 @@ class XCodeBackend(backends.Backend):
 
     def generate_build_phase_map(self) -> None:
         for tname, t in self.build_targets.items():
-            # generate id for our own target-name
+            # One id per build phase that is really written for the target:
+            # its sources phase (under the target's own name) and Frameworks
             self.buildphase_map[t.id] = {
                 tname: self.gen_id(),
-                # each target can have its own Frameworks/Sources/..., generate
-                # id's for those
                 'Frameworks': self.gen_id(),
-                'Resources': self.gen_id(),
-                'Sources': self.gen_id(),
             }
 
     def generate_build_configuration_map(self) -> None:
